@@ -11,7 +11,7 @@ from ..kit import sched as S
 from ..ref import codec as R
 from hypothesis import strategies as st
 
-from yowsup.layers import YowParallelLayer
+from yowsup.layers import YowParallelLayer, YowLayer, YowLayerEvent
 from yowsup.layers.interface import YowInterfaceLayer
 from yowsup.stacks import YowStackBuilder
 from yowsup.structs import ProtocolTreeNode
@@ -190,6 +190,98 @@ def _dispatcher_writes(case, out):
     return out
 
 
+class _PlainTop(YowLayer):
+    def receive(self, data):
+        pass
+
+    def send(self, data):
+        self.toLower(data)
+
+    def onEvent(self, ev):
+        return False
+
+
+def _reconnect_writes(case, out):
+    """the network layer over the library's own asynchronous dispatcher class (socket double with short writes, event-loop
+    rounds driven by the script) across reconnects: on every connection's socket the bytes are those of the frames sent while
+    that connection was up, from the first byte of the first one - whole frames in order, a connection lost with output pending
+    simply ends early, and nothing of an earlier connection's output turns up on a later socket"""
+    import yowsup.layers.network.layer as netmod
+    from yowsup.layers.network.layer import YowNetworkLayer
+    from ..kit import netkit, stackkit
+    Driven, DA = netkit.driven_asyncore_class()
+    Driven.made = []
+    Driven.caps = case["caps"]
+    saved = (netmod.AsyncoreConnectionDispatcher, netmod.SocketConnectionDispatcher)
+    netmod.AsyncoreConnectionDispatcher = netmod.SocketConnectionDispatcher = Driven
+    DA.asyncore = netkit.AsyncoreShim(DA.asyncore)
+    try:
+        stack = stackkit.new_stack_class()((YowNetworkLayer, _PlainTop), reversed=False, props={YowNetworkLayer.PROP_ENDPOINT: ("e1.whatsapp.net", 443)})
+        top = stack.getLayer(1)
+        out.label("reconnect_writes")
+
+        def connect():
+            stack.broadcastEvent(YowLayerEvent(YowNetworkLayer.EVENT_STATE_CONNECT))
+            pending = [d for d in Driven.made if d.state == "pending"]
+            if len(pending) != 1:
+                return False
+            pending[0].h_establish()
+            expected.append(bytearray())
+            socks.append(pending[0]._sock)
+            return True
+        expected, socks = [], []
+        if not connect():
+            out.fail("dispatcher", "reconnect:no_connection_opened", {})
+            return out
+        pending_at_loss = False
+        for k, op in enumerate(case["ops"]):
+            cur = [d for d in Driven.made if d.state == "up"]
+            if op[0] == "send" and cur:
+                frame = bytes([k & 0xFF]) * 3 + bytes(((k * 7 + i) & 0xFF) for i in range(op[1]))
+                top.send(frame)
+                expected[-1] += frame
+            elif op[0] == "loop" and cur:
+                d = cur[0]
+                if d.writable() and d.out_buffer:
+                    d.handle_write()
+            elif op[0] == "reconnect" and cur:
+                if cur[0].out_buffer:
+                    pending_at_loss = True
+                if op[1] == "peer":
+                    cur[0].h_peer_close()
+                else:
+                    stack.broadcastEvent(YowLayerEvent(YowNetworkLayer.EVENT_STATE_DISCONNECT, reason="requested"))
+                stackkit.drain_detached(stack)
+                if not connect():
+                    out.fail("dispatcher", "reconnect:no_connection_opened", {"step": k, "history": case["ops"][:k + 1]})
+                    return out
+        for d in [d for d in Driven.made if d.state == "up"]:
+            d._sock.caps = None
+            for _ in range(64):
+                if not d.out_buffer:
+                    break
+                d.handle_write()
+        if pending_at_loss:
+            out.label("connection_lost_with_output_pending")
+        out.info = {"nt": pending_at_loss}
+        for i, (sock, exp) in enumerate(zip(socks, expected)):
+            last = i == len(socks) - 1
+            wire = bytes(sock.wire)
+            ok = wire == bytes(exp) if last else bytes(exp[:len(wire)]) == wire
+            if not ok:
+                n = 0
+                while n < min(len(wire), len(exp)) and wire[n] == exp[n]:
+                    n += 1
+                out.fail("dispatcher", "reconnect:bytes_on_connection_%s_are_not_its_frames" % ("after_a_reconnect" if i else "one"),
+                         {"connection": i + 1, "sent_while_up": len(exp), "on_the_socket": len(wire), "first_difference_at": n, "caps": case["caps"][:8],
+                          "history": case["ops"]})
+                return out
+        return out
+    finally:
+        netmod.AsyncoreConnectionDispatcher, netmod.SocketConnectionDispatcher = saved
+        DA.asyncore = DA.asyncore._real
+
+
 def _dispatcher_race(case, out):
     """the asynchronous dispatcher between two threads, as in a running client: the sender (one at a time - the layers above
     serialise them) inside sendData, and the event loop's thread writing pending output whenever the socket is writable.
@@ -260,6 +352,8 @@ def run_case(case):
         return _dispatcher_race(case, Outcome())
     if case.get("sub") == "dispatcher_writes":
         return _dispatcher_writes(case, Outcome())
+    if case.get("sub") == "reconnect_writes":
+        return _reconnect_writes(case, Outcome())
     out = Outcome()
     variant = case["variant"]
     ping = bool(case.get("ping")) and variant == "proto"
@@ -412,7 +506,7 @@ def shrink_candidates(case):
             if len(case["sizes"]) > 1:
                 yield dict(case, sizes=case["sizes"][:i] + case["sizes"][i + 1:])
         return
-    if case.get("sub") == "dispatcher_writes":
+    if case.get("sub") in ("dispatcher_writes", "reconnect_writes"):
         for i in range(len(case["ops"])):
             yield dict(case, ops=case["ops"][:i] + case["ops"][i + 1:])
         return
@@ -519,6 +613,21 @@ def _enum_dispatcher_writes():
                    "ops": [["send", 3], ["send", 300], ["loop"], ["send", 3], ["send", 70000], ["send", 3], ["send", 20], ["loop"], ["loop"], ["send", 5000]]}
 
 
+def reconnect_writes_strategy():
+    op = st.one_of(st.tuples(st.just("send"), st.sampled_from([1, 3, 20, 300, 5000, 70000])).map(list), st.just(["loop"]),
+                   st.tuples(st.just("reconnect"), st.sampled_from(["peer", "requested"])).map(list))
+    caps = st.lists(st.sampled_from([0, 1, 2, 3, 7, 100, 4096, 65536, 1 << 30]), min_size=1, max_size=6)
+    return st.builds(lambda ops, c: {"sub": "reconnect_writes", "ops": ops, "caps": c, "tasks": []}, st.lists(op, min_size=2, max_size=12), caps)
+
+
+def _enum_reconnect_writes():
+    for caps in ([1 << 30], [2], [3, 0, 100], [4096], [65536, 1]):
+        for how in ("peer", "requested"):
+            yield {"sub": "reconnect_writes", "caps": caps, "tasks": [],
+                   "ops": [["send", 3], ["send", 300], ["loop"], ["send", 70000], ["reconnect", how], ["send", 3], ["send", 20], ["loop"], ["send", 5000],
+                           ["reconnect", how], ["send", 300], ["loop"]]}
+
+
 def _enum_dispatcher_race():
     """one preemption at every line of the asynchronous dispatcher's write path (sender thread x event-loop thread) for sockets
     that take 1 / 100 / at most 64 KiB per call or sometimes nothing"""
@@ -543,12 +652,13 @@ def plan(tier):
         "shards": 16,
         "enumerations": [("basic", _enum_basic), ("login_preemption_sweep", _enum_login_preemption_sweep),
                          ("first_send_line_sweep", _enum_first_send_line_sweep), ("dispatcher_writes_basic", _enum_dispatcher_writes),
-                         ("dispatcher_race_sweep", _enum_dispatcher_race)],
+                         ("dispatcher_race_sweep", _enum_dispatcher_race), ("reconnect_writes_basic", _enum_reconnect_writes)],
         "exhaustive": ["login_preemption_sweep", "first_send_line_sweep"],
         "strategies": [("schedules", case_strategy(tier), 150 if quick else 10000),
                        ("first_send_line_schedules", first_send_strategy(), 60 if quick else 3000),
                        ("dispatcher_writes", dispatcher_writes_strategy(), 40 if quick else 2000),
-                       ("dispatcher_race", dispatcher_race_strategy(), 40 if quick else 3000)],
+                       ("dispatcher_race", dispatcher_race_strategy(), 40 if quick else 3000),
+                       ("reconnect_writes", reconnect_writes_strategy(), 40 if quick else 3000)],
         "shrink": "ddmin",
         "budget_s": 150 if quick else 1800,
     }
